@@ -215,8 +215,7 @@ func (x *Exec) callStatic(st *State, fn *ssa.Function, args []Value, binds []Val
 						x.contractError(c, err)
 						continue
 					}
-					x.oblige(st, "requires", key+":"+c.Label+"@"+x.srcAt(pos), c.Props, g, pos)
-					st.assume(g)
+					x.obligeAssume(st, "requires", key+":"+c.Label+"@"+x.srcAt(pos), c.Props, g, pos)
 				}
 			}
 			if pd.okName != "" {
@@ -478,8 +477,7 @@ func (x *Exec) applyContract(st *State, fn *ssa.Function, fc *FuncContract, args
 			x.contractError(c, err)
 			continue
 		}
-		x.oblige(st, "requires", key+":"+c.Label+"@"+x.srcAt(pos), c.Props, g, pos)
-		st.assume(g)
+		x.obligeAssume(st, "requires", key+":"+c.Label+"@"+x.srcAt(pos), c.Props, g, pos)
 	}
 	invs, invRecv := x.w.recvInvFor(fn)
 	for _, c := range invs {
@@ -489,8 +487,7 @@ func (x *Exec) applyContract(st *State, fn *ssa.Function, fc *FuncContract, args
 			x.contractError(c, err)
 			continue
 		}
-		x.oblige(st, "requires", key+":receiver-invariant:"+c.Label+"@"+x.srcAt(pos), c.Props, g, pos)
-		st.assume(g)
+		x.obligeAssume(st, "requires", key+":receiver-invariant:"+c.Label+"@"+x.srcAt(pos), c.Props, g, pos)
 	}
 	x.checkParamContracts(st, fn, fc, args, pos)
 	x.havocCall(st, fn, args, binds)
@@ -581,7 +578,8 @@ func (x *Exec) recvInvAt(st, pre *State, fn *ssa.Function, args, binds []Value, 
 			continue
 		}
 		if check {
-			x.oblige(st, "requires", key+":receiver-invariant:"+c.Label+"@"+x.srcAt(pos), c.Props, g, pos)
+			x.obligeAssume(st, "requires", key+":receiver-invariant:"+c.Label+"@"+x.srcAt(pos), c.Props, g, pos)
+			continue
 		}
 		st.assume(g)
 	}
@@ -643,8 +641,7 @@ func (x *Exec) callParamFunc(st *State, pf *ParamFuncV, args []Value, pos token.
 				x.contractError(c, err)
 				continue
 			}
-			x.oblige(st, "requires", "param-"+pf.name+":"+c.Label+"@"+x.srcAt(pos), c.Props, g, pos)
-			st.assume(g)
+			x.obligeAssume(st, "requires", "param-"+pf.name+":"+c.Label+"@"+x.srcAt(pos), c.Props, g, pos)
 		}
 	}
 	var rargs []Value
@@ -1161,8 +1158,7 @@ func (x *Exec) checkTypeInvs(st *State, callee *ssa.Function, args []Value, pos 
 				x.contractError(c, err)
 				continue
 			}
-			x.oblige(st, "requires", funcKey(callee)+":type-invariant:"+c.Label+"@"+x.srcAt(pos), c.Props, g, pos)
-			st.assume(g)
+			x.obligeAssume(st, "requires", funcKey(callee)+":type-invariant:"+c.Label+"@"+x.srcAt(pos), c.Props, g, pos)
 		}
 	}
 }
